@@ -114,7 +114,13 @@ def ser_names(v):
 
 
 def serialize(doc) -> dict:
-    """post-construction state of a single-section table document (no widths)"""
+    """post-construction state of a single-section table document (no widths).
+
+    `headers` is the LIST of the entries of `doc.rtf_column_header` whatever Python sequence holds them: the encoder
+    model (`Model.Encode.Doc.headers : List (Option Header)`) renders every entry.  That the renderer does the same
+    for the container construction leaves behind (its type guards dispatch on the container's Python type) is part of
+    the correspondence: it is exercised by the documents whose component arguments are handed over in the other
+    container spellings (`spelled` below, docgen "spelling"); the container step itself is Model/HeaderInput.lean."""
     import polars as pl
 
     if not isinstance(doc.df, pl.DataFrame):
@@ -759,6 +765,14 @@ def _worker(args):
         elif rest and rest[0]:
             # the header-variation class (`vary_headers`): its own random stream, the stages' streams stay as they were
             spec, info = gen_doc(common.sub_rng(seed, "encodecorr", "headers", stage, k), stage, k, vary=True)
+            if len(rest) > 1 and rest[1]:
+                # the same document with its component arguments in other container spellings (docgen "spelling":
+                # headers as a tuple / a single object, texts as str / list / tuple / frame); single frames only
+                srng = common.sub_rng(seed, "encodecorr", "spelling", stage, k)
+                force = {"headers": "tuple"} if spec["headers"] and k % 3 != 2 else {}
+                spec["spelling"] = docgen.gen_spelling(srng, spec, p=0.6, force=force)
+                spec["spelling"].pop("sections", None)
+                info["spelling_labels"] = docgen.spelling_labels(spec)
         else:
             spec, info = gen_doc(common.sub_rng(seed, "encodecorr", stage, k), stage, k)
             label_headers(spec, info)
@@ -769,7 +783,13 @@ def _worker(args):
         except Exception as e:  # noqa: BLE001
             out.update(status="construct-error", exc=docgen.classify_exc(e), msg=str(e)[:200])
             return out
-        state, widths, real = encode_real(doc)
+        try:
+            state, widths, real = encode_real(doc)
+        except TypeError as e:
+            # what construction left behind is outside the encoder model's input domain (`serialize` refuses it):
+            # no model text to compare with — a broken correspondence, not a failure of the machinery
+            out.update(status="unserializable", exc="TypeError", msg=str(e)[:200])
+            return out
         out.update(status=real[0], req=request(state, widths, check=True))
         if real[0] == "ok":
             out["real"] = real[1]
@@ -794,6 +814,10 @@ def compare(outs):
     for o in outs:
         if o.get("status") == "construct-error":
             o["verdict"], o["why"] = "construct-error", f"{o['exc']}: {o['msg']}"
+            continue
+        if o.get("status") == "unserializable":
+            o["verdict"] = "state-outside-model"
+            o["why"] = f"the document state after construction is outside the encoder model's input domain: {o['msg']}"
             continue
         d = o["model"]
         if o["status"] == "ok":
@@ -822,14 +846,17 @@ HEADER_SHARE = {1: 6, 2: 2, 3: 4}      # header-variation documents per stage: n
 SHAPE_SHARE = {1: 6, 2: 4, 3: 2}       # data-shape documents per stage (`harness/datashapes.py`)
 
 
-def generate_and_compare(seed: int, n_per_stage: int, stages=(1, 2, 3), headers: bool = False, shapes: bool = False):
+def generate_and_compare(seed: int, n_per_stage: int, stages=(1, 2, 3), headers: bool = False, shapes: bool = False,
+                         spelled: int = 0):
     """`headers=True` adds the documents of the header-variation class (`vary_headers`) to every stage, `shapes=True`
-    those of the data-shape class (`datashapes.gen_corr_doc`)"""
+    those of the data-shape class (`datashapes.gen_corr_doc`); `spelled` adds that many documents of the header class per
+    stage with their component arguments in other container spellings"""
     jobs = [(seed, st, k, None) for st in stages for k in range(n_per_stage)]
     if headers:
         jobs += [(seed, st, k, None, True) for st in stages for k in range(n_per_stage // HEADER_SHARE[st])]
     if shapes:
         jobs += [(seed, st, k, None, "shapes") for st in stages for k in range(n_per_stage // SHAPE_SHARE[st])]
+    jobs += [(seed, st, k, None, True, True) for st in stages for k in range(spelled)]
     outs = common.pool_map(_worker, jobs, chunksize=8)
     for o in outs:
         if "machinery" in o:
